@@ -1,26 +1,48 @@
 ----------------------------- MODULE GenIdlRpc -----------------------------
 (* Export for IdlRpc (C05): one line per complete behaviour:
-   "S": [cls, key, lines, acts, ops]
-     cls    class of the interface (of its one non-plain action, else plain)
-     key    the pool indices of the interface (one generated package per key)
-     lines  the IDL text, one string per line
+   "S": [cls, key, layout, itfs, lines, acts, ops]
+     cls    class of the interface (of its one special action, else "object"
+            when it exchanges objects, else "plain")
+     key    the pool indices of the interface (one generated package per key
+            and layout)
+     layout where the other interfaces of the package stand in the IDL text
+     itfs   the interfaces of the package whose objects are exchanged
+     lines  the IDL text of the package, one string per line
      acts   per action, in the order of the text: kind, id, name, cls, number
-            of parameters, void, initial value (properties)
-     ops    the operations with concrete values and expected observations  *)
+            of parameters, void, initial value (properties) with the
+            references inside it
+     ops    the operations with concrete values and expected observations;
+            an object slot of a value is [slot |-> n]: the n-th entry of
+            objs (arguments / payload) resp. robjs (result): hs the sender's
+            handle, hg the receiver's new handle, obj the object denoted    *)
 EXTENDS IdlRpc, Json
 
+RECURSIVE SeqOfStrings(_)
+SeqOfStrings(S) == IF S = {} THEN <<>> ELSE LET x == CHOOSE y \in S : TRUE IN <<x>> \o SeqOfStrings(S \ {x})
+
 ItfClass == IF \E i \in chosen : Special(i)
-            THEN ThePool[CHOOSE i \in chosen : Special(i)].cls ELSE "plain"
+            THEN ThePool[CHOOSE i \in chosen : Special(i)].cls
+            ELSE IF \E i \in chosen : ThePool[i].cls = "object" THEN "object" ELSE "plain"
 ActOut(i) == LET a == ThePool[i]
+                 ss == ArgSlots(a, InitK)
              IN [kind |-> a.kind, id |-> a.id, name |-> a.name, cls |-> a.cls, np |-> Len(a.ps),
                  void |-> (a.ret = Void),
-                 init |-> IF a.kind = "property" THEN Args(a, InitK) ELSE <<>>]
-OpOut(h) == LET a == ThePool[h.idx]
-            IN [op |-> h.op, id |-> h.id, deliver |-> h.deliver,
-                args |-> IF h.op \in {"call", "emit", "set"} THEN Args(a, h.k) ELSE <<>>,
-                ret |-> IF h.op = "call" /\ h.r # 0 THEN <<Val(a.ret, h.r)>>
-                        ELSE IF h.op = "get" THEN Args(a, h.r) ELSE <<>>]
-Scenario == [cls |-> ItfClass, key |-> ChosenSeq, lines |-> IdlText,
+                 init |-> IF a.kind = "property" THEN Args(a, InitK) ELSE <<>>,
+                 initobjs |-> IF a.kind = "property"
+                              THEN Unsent(Picks(SHeld0, Table0, ss, 1), ss, SHeld0, Table0) ELSE <<>>]
+OpOut(h) == IF h.idx = 0
+            THEN [op |-> h.op, id |-> 0, deliver |-> FALSE, args |-> <<>>, ret |-> <<>>, j |-> 0,
+                  side |-> h.side, h |-> h.h, g |-> h.g, objs |-> h.objs, robjs |-> h.robjs,
+                  exec |-> h.exec, dev |-> h.dev]
+            ELSE LET a == ThePool[h.idx]
+                 IN [op |-> h.op, id |-> h.id, deliver |-> h.deliver,
+                     args |-> IF h.op \in {"call", "emit", "set"} THEN Args(a, h.k) ELSE <<>>,
+                     ret |-> IF h.op = "call" /\ h.r # 0 THEN <<Val(a.ret, h.r)>>
+                             ELSE IF h.op = "get" THEN Args(a, h.r) ELSE <<>>,
+                     j |-> h.j, side |-> h.side, h |-> h.h, g |-> h.g, objs |-> h.objs, robjs |-> h.robjs,
+                     exec |-> h.exec, dev |-> h.dev]
+Scenario == [cls |-> ItfClass, key |-> ChosenSeq, layout |-> layout, itfs |-> SeqOfStrings(PkgItfs),
+             lines |-> IdlText,
              acts |-> [j \in DOMAIN ChosenSeq |-> ActOut(ChosenSeq[j])],
              ops |-> [n \in DOMAIN hist |-> OpOut(hist[n])]]
 Complete == phase = "run" /\ Len(hist) = MaxOps
